@@ -395,6 +395,38 @@ class Gen:
             tail = kv.get('tail', '')
             synth = fsrc[:start_idx] + '{' + region.rstrip('\n') + ' ' + tail + '}' + fsrc[end_idx:]
             it = rs.Item(synth, start_idx, start_idx, start_idx + len('{' + region.rstrip('\n') + ' ' + tail + '}'), kv['file'])
+        elif 'region_stmt' in kv:
+            # the region is the WHOLE statement that starts on the (unique) line matching the regex, up to the `;` that ends it
+            # (whatever its layout); whole lines
+            lines = fsrc.split('\n')
+            lo, hi = it.line_start - 1, it.line_end
+            st = [k for k in range(lo, hi) if re.search(kv['region_stmt'], lines[k])]
+            a = b = None
+            if len(st) == 1:
+                head_idx = sum(len(l) + 1 for l in lines[:st[0]])
+                depth = 0
+                for kind_, s0, e0 in rs.tokenize(fsrc[head_idx:it.end]):
+                    if kind_ != 'punct':
+                        continue
+                    ch = fsrc[head_idx + s0]
+                    if ch in '([{':
+                        depth += 1
+                    elif ch in ')]}':
+                        depth -= 1
+                        if depth < 0:
+                            break
+                    elif ch == ';' and depth == 0:
+                        a, b = st[0], rs.line_of(fsrc, head_idx + s0) - 1
+                        break
+            if a is None:
+                region_lost = f'{fid}: region statement /{kv["region_stmt"]}/ matches {len(st)} lines'
+                a, b = lo, lo
+            start_idx = sum(len(l) + 1 for l in lines[:a])
+            end_idx = sum(len(l) + 1 for l in lines[:b + 1])
+            region = fsrc[start_idx:end_idx] if not region_lost else ''
+            tail = kv.get('tail', '')
+            synth = fsrc[:start_idx] + '{' + region.rstrip('\n') + ' ' + tail + '}' + fsrc[end_idx:]
+            it = rs.Item(synth, start_idx, start_idx, start_idx + len('{' + region.rstrip('\n') + ' ' + tail + '}'), kv['file'])
         elif 'region_start' in kv:
             # a region of the function (consecutive whole lines, anchored by regexes) becomes the body of a wrapper
             # whose signature binds the free variables; `tail=` returns named locals (glue declared in DESIGN.md 2.2)
@@ -488,17 +520,18 @@ class Gen:
         stubbed = fid in self.stub_fns
         body_lines = []
         heads = []
-        if not stubbed:
+        if foreign:
+            # used by contract only (external_body): the body text is not needed, and leaving it out keeps a construct the verus!
+            # macro cannot even parse from breaking every unit that merely depends on this function
+            body_lines, heads = [('{ unimplemented!() }', ('tmpl', path, 0))], []
+        elif not stubbed:
             try:
                 if region_lost:
                     raise Undecided(region_lost)
                 body_lines, heads = self._prepare_body(it, kv, fid, fn, loops, hints, local_rw, path)
             except Undecided as e:
-                if foreign:
-                    body_lines, heads = [], []
-                else:
-                    stubbed = True
-                    self.stub_reasons[fid] = str(e)
+                stubbed = True
+                self.stub_reasons[fid] = str(e)
         if stubbed:
             fn['stubbed'] = True
             fn['stub_reason'] = self.stub_reasons.get(fid, 'Verus rejects the body (see undecided)')
